@@ -276,6 +276,15 @@ func (c *VConn) Submit(u imap.Update, timeout time.Duration) error {
 	return nil
 }
 
+// CarryOver makes this connector continue the remote state of an earlier one (server restart).
+func (c *VConn) CarryOver(old *VConn) {
+	old.mu.Lock()
+	defer old.mu.Unlock()
+	c.Mailboxes, c.Messages, c.Visibility = old.Mailboxes, old.Messages, old.Visibility
+	c.nextMbox, c.nextMsg = old.nextMbox, old.nextMsg
+	c.MoveRemovesSource = old.MoveRemovesSource
+}
+
 // NewMailbox is a helper for MailboxCreated updates issued by the remote itself.
 func (c *VConn) NewMailbox(id string, name ...string) imap.Mailbox {
 	c.mu.Lock()
